@@ -24,5 +24,6 @@ ac98dfc C05
 a7c7271 C17
 9ee7485 C14
 790a4df C14
+f3ea7d2 C03 C10
 LIST
 git status --short | head -3
